@@ -109,6 +109,8 @@ func c08BasePaths() []string {
 			// escapes of escapes: the captured value is decoded exactly once
 			p+"/users/100%2541", p+"/users/100%25", p+"/users/%2541", p+"/files/a%2520b/c%25", p+"/t/x%5By/mid/%25",
 			p+"/lit/annual%20report", p+"/lit/annual%20reports", p+"/lit/annual",
+			// characters which net/url does not accept unescaped in an encoded path (it then falls back to re-escaping the decoded path)
+			p+"/users/{id}", p+"/files/a|b/c^d", p+"/users/%7Bid%7D", p+"/t/<x>/mid/`y`",
 		)
 	}
 	out = append(out, "/unknown/x", "/", "/mix/f/report", "/mix/f/zzzreport", "/mix/g/report", "/mix/g/zzz.x", "/mix/f/100%2541")
